@@ -250,6 +250,21 @@ func typedNilFailures(prop string) {
 		}
 		return fmt.Sprint(got, len(es)), fmt.Sprint([]int{2, 4}, 1)
 	})
+	// every failure is of an uncomparable dynamic type (a list of field errors): nothing may compare two of them
+	fs := func(x int) (int, error) {
+		if x%3 != 1 {
+			return 0, sliceErr{x, x}
+		}
+		return x * 2, nil
+	}
+	nilCase(prop, "Map+StdErr/uncomparable-failures", func() (any, any) {
+		return pipe.ToSeq(pipe.StdErr(pipe.Map(ctx, pipe.Seq(xs...), pipe.Try(fs)))), []int{2, 8, 14, 20}
+	})
+	nilCase(prop, "fork.Map+StdErr/uncomparable-failures", func() (any, any) {
+		got := fork.ToSeq(fork.StdErr(fork.Map(ctx, 2, fork.Seq(xs...), fork.Try(fs))))
+		slices.Sort(got)
+		return got, []int{2, 8, 14, 20}
+	})
 	nilCase(prop, "fork.Map+StdErr/typed-nil-failure", func() (any, any) {
 		got := fork.ToSeq(fork.StdErr(fork.Map(ctx, 3, fork.Seq(xs...), fork.Try(f))))
 		slices.Sort(got)
